@@ -18,7 +18,7 @@ nxt(i,j): item(j) is among next_concepts(item(i)); reach: the least set containi
 """
 from z3 import And, BoolSort, BoolVal, ForAll, Function, Implies, Int, IntSort, Ints, MultiPattern, Not, Or
 
-from pyvc.engine import FuncV, IntV, IterV, LoopSpec, NONE, ObjV, TupleV, Unsupported, truthy
+from pyvc.engine import FuncV, IntV, IterV, LoopSpec, NONE, ObjV, SeqV, TupleV, Unsupported, truthy
 from contracts import lib
 from contracts.registry import Unit, register
 from pyvc import bits
@@ -104,7 +104,8 @@ def _iterunion_unit():
 
             def heappush(p, args, kw):
                 h, it = args
-                if h is not heap or not isinstance(it, TupleV) or len(it.items) != 2 or not isinstance(it.items[0], IntV):
+                if (h is not heap and h is not p.ghost.get('heap.list')) or not isinstance(it, TupleV) or len(it.items) != 2 \
+                        or not isinstance(it.items[0], IntV):
                     raise Unsupported('heappush of %r' % (it,))
                 key, c = it.items
                 # the heap holds pairs (sortkey(c), c)
@@ -117,7 +118,7 @@ def _iterunion_unit():
 
             def heappop(p, args, kw):
                 (h,) = args
-                if h is not heap:
+                if h is not heap and h is not p.ghost.get('heap.list'):
                     raise Unsupported('heappop of another list')
                 H = heap.fields['H']
                 m = p.fresh_int('m')
@@ -130,8 +131,26 @@ def _iterunion_unit():
                 return TupleV([IntV(m), item(m)])
 
             def heapify(p, args, kw):
-                if args[0] is not heap:
-                    raise Unsupported('heapify of another list')
+                # the initial list: [(sortkey(c), c) for c in concepts] (a comprehension or an equivalent append loop) -- checked
+                # on a symbolic element; from here on this list object is the heap
+                lst = args[0]
+                if not isinstance(lst, (IterV, SeqV)):
+                    raise Unsupported('heapify of %r' % (lst,))
+                t = p.fresh_int('t')
+                n0 = len(p.pc)
+                p.pc.append(And(0 <= t, t < R.slen))
+                el = lst.at(t)
+                ok = isinstance(el, TupleV) and len(el.items) == 2 and isinstance(el.items[0], IntV) \
+                    and getattr(el.items[1], 'ident', None) is not None
+                p.oblige('initial-heap/shape', 'post', BoolVal(ok))
+                if ok:
+                    p.oblige('initial-heap/pairs-of-the-seeds', 'post', And(el.items[0].t == R.skey(t), el.items[1].ident == R.skey(t)))
+                del p.pc[n0:]
+                p.oblige('initial-heap/one-entry-per-seed', 'post', lst.length == R.slen)
+                H0 = fresh_set('H')
+                p.assume(ForAll([k], H0(k) == R.seed(k), patterns=[H0(k)]))
+                heap.fields['H'] = H0
+                p.ghost['heap.list'] = lst
                 return NONE
 
             def partial(p, args, kw):
@@ -227,11 +246,23 @@ def _iterunion_unit():
                 path.oblige('lemma.use/L-REACH/closed', 'lemma.use', hyp2)
                 path.assume(ForAll([k], Implies(R.reach(k), Y(k)), patterns=[R.reach(k)]))
                 path.oblige('post/yields-exactly-reach', 'post', ForAll([k], Y(k) == R.reach(k), patterns=[Y(k), R.reach(k)]))
-            loops = {'globals': dict(lib.builtins(), functools=functools, heapq=heapq), 0: outer, 1: inner,
-                     'closed_form': {'ListComp#0': initial_heap}, 'on_yield': on_yield}
+            loops = {'globals': dict(lib.builtins(), functools=functools, heapq=heapq), 'on_yield': on_yield}
+            # loop ordinals: the while loop and the inner for over next_concepts, wherever an (equivalent) initial append loop sits
+            import ast as _ast
+            from pyvc import extract as _x
+            _fn = _x.get_function('concepts/algorithms/common.py', 'iterunion').node
+            _loops = [n for n in _ast.walk(_fn) if isinstance(n, (_ast.While, _ast.For))]
+            _w = [i for i, n in enumerate(_loops) if isinstance(n, _ast.While)]
+            if len(_w) != 1:
+                raise Unsupported('expected exactly one while loop in iterunion')
+            _inner = [i for i, n in enumerate(_loops) if isinstance(n, _ast.For) and any(n is d for d in _ast.walk(_loops[_w[0]]))]
+            if len(_inner) != 1:
+                raise Unsupported('expected exactly one for loop inside the while loop of iterunion')
+            loops[_w[0]] = outer
+            loops[_inner[0]] = inner
             outer.modifies = ['heap']
             inner.modifies = ['heap']
-            loops['havoc_heap'] = lambda p, cur: cur
+            loops['havoc_heap'] = lambda p, cur: heap
             return env, loops, finish
         return axioms, harness
     return make
